@@ -399,6 +399,66 @@ apply: (IH _ _ a' b' A0 b0 res H') => //; first lia.
 Qed.
 
 
+(** when all pivots are found the matrix is non-singular *)
+Lemma solve_loop_det cnt : forall row n a b (A0 : 'M[K]_n) x,
+  solve_loop F cnt row n a b = Done (Ok x) -> (cnt + row = n)%nat -> length a = n -> length b = n ->
+  (forall u : 'rV[K]_n, u *m A0 = 0 -> u *m mx_of n n a = 0) ->
+  (forall r c : 'I_n, r < row -> ent F a r c = (r == c)%:R) ->
+  \det A0 != 0.
+Proof.
+elim: cnt => [|cnt IH] row n a b A0 x.
+  move=> _ /= Hn La Lb Q1 Q2; apply/negP => /det0P [u nz /Q1].
+  rewrite (_ : mx_of n n a = 1%:M) ?mulmx1; first by move=> E; rewrite E eqxx in nz.
+  by apply/matrixP => r c; rewrite !mxE Q2 //; have := ltn_ord r; lia.
+move=> H Hn La Lb Q1 Q2.
+have Hrow : (row < n)%coq_nat by lia.
+have Hrown : row < n by lia.
+case: (solve_loop_step F cnt row n a b _ H La Lb Hrow)
+  => [[//]|[nxt [a' [b' [Hnxt [Hnz [Hzs [La' [Lb' [H' [Ha' _]]]]]]]]]]].
+have {Ha'} Ha' : forall r k : nat, r < n -> k < n ->
+    ent F a' r k = (if k == row then ent F a r nxt / ent F a row nxt
+                    else ent F a r (swp row nxt k)
+                         - ent F a row (swp row nxt k) * (ent F a r nxt / ent F a row nxt)).
+  by move=> r k /ltP Hr /ltP Hk; have /= := Ha' r k Hr Hk; rewrite Nat_eqbE.
+have swn k : k < n -> swp row nxt k < n.
+  by rewrite /swp !Nat_eqbE; case: ifP => _; [lia|case: ifP => _; lia].
+have Hnxtn : nxt < n by lia.
+move: Hnz; rewrite is0E => /negbT Hnz.
+apply: (IH _ _ a' b' A0 x H') => //; first lia.
+- move=> u /Q1 Hu; apply/matrixP => z k; rewrite !mxE.
+  have S (c : nat) (Hc : c < n) : \sum_(r < n) u z r * ent F a r c = 0.
+    move/matrixP: (Hu) => /(_ z (Ordinal Hc)); rewrite !mxE => H0; rewrite -[RHS]H0.
+    by apply: eq_bigr => r _; rewrite mxE.
+  under eq_bigr => r _ do rewrite mxE Ha' //.
+  case: (k == row :> nat).
+    under eq_bigr => r _ do rewrite mulrA.
+    by rewrite -mulr_suml S // mul0r.
+  under eq_bigr => r _ do rewrite mulrBr mulrCA (mulrA (u z r)).
+  by rewrite sumrB -mulr_sumr -mulr_suml !S ?swn // mul0r mulr0 subrr.
+- move=> r c Hr; rewrite Ha' //.
+  have Q2n r' c' : r' < row -> c' < n -> ent F a r' c' = (r' == c')%:R.
+    move=> Hr' Hc'; have Hr'n : r' < n by lia.
+    exact: (Q2 (Ordinal Hr'n) (Ordinal Hc')).
+  have Hc := ltn_ord c.
+  move: Hr; rewrite ltnS leq_eqVlt => /orP [/eqP Hr|Hr]; last first.
+    rewrite (Q2n r nxt) // (_ : (r == nxt :> nat) = false) ?mul0r; last by lia.
+    case: ifP => [/eqP ci|ci]; first by rewrite (_ : (r == c) = false) //; apply/eqP => rc; move: Hr; rewrite rc ci ltnn.
+    rewrite mulr0 subr0 Q2n ?swn //; congr (_ %:R); congr nat_of_bool.
+    rewrite /swp !Nat_eqbE ci; case: ifP => [/eqP cn|_]; last by [].
+    by rewrite -val_eqE /= cn; apply/eqP/eqP; lia.
+  have -> : (r == c) = (c == row :> nat) by rewrite -val_eqE /= Hr eq_sym.
+  rewrite Hr; case: ifP => _; first by rewrite mulfV.
+  by rewrite mulfV // mulr1 subrr.
+Qed.
+
+Theorem solve_ok_det (a : list (list K)) (b x : list K) :
+  solve_linear_system F a b = Done (Ok x) -> \det (mx_of (length a) (length a) a) != 0.
+Proof.
+rewrite /solve_linear_system; case E: (Nat.eqb _ _) => //= H.
+move: E; rewrite Nat_eqbE => /eqP E.
+by apply: (solve_loop_det H) => //; rewrite addn0.
+Qed.
+
 Theorem solve_spec_gen (a : list (list K)) (b : list K) res :
   solve_linear_system F a b = Done res ->
   let n := length a in
